@@ -9,8 +9,9 @@
    around "****" and never contains the complete value.
    The translator's argument classification is syntactic and trusted; it is cross-checked dynamically: the oracle
    induces failures with high-entropy 12-19 character secrets over every kind, encoding and operation and greps
-   every error text and every Describe output of the real library for them (partial for track fields, which the model
-   does not cover). *)
+   every error text and every Describe output of the real library for them. The track filters are modelled
+   (Model/Track.v), compared with the library by the trk topic, and for Track2 proved to show the track with the PAN
+   masked (C18_track2_filter); Track1 / Track3: model and search only. *)
 From Coq Require Import List Bool Strings.String.
 Import ListNotations.
 From Iso Require Import Model.Base Model.Describe Proofs.DescribeProofs Gen.ErrorSites.
@@ -70,3 +71,32 @@ Print Assumptions C18_describe_pin.
 Example C18_ex : pan_filter [x34; x32; x34; x32; x34; x32; x34; x32; x34; x32; x34; x32; x34; x32; x34; x32] =
   [x34; x32; x34; x32; x2a; x2a; x2a; x2a; x34; x32; x34; x32].
 Proof. vm_compute; reflexivity. Qed.
+
+(* ---- track filters ---- *)
+Close Scope string_scope.
+Close Scope nat_scope.
+Open Scope Z_scope.
+Open Scope list_scope.
+From Iso Require Import Model.Base Model.Padding Model.Encoding Model.Prefix Model.Bitmap Model.Spec Model.Field Model.Describe Model.Track
+     Proofs.BaseLemmas Proofs.EncodingProofs Proofs.FieldProofs Proofs.TrackProofs.
+
+
+Theorem C18_track2_filter : forall p t b inp, coherent_pspec p -> t2_dom t ->
+  pad_ok (ps_pad p) (t_render T2 t) = true -> enc_dom (ps_enc p) (pad (ps_pad p) (t_render T2 t) (ps_len p)) = true ->
+  zlen (pad (ps_pad p) (t_render T2 t) (ps_len p)) <= max_int ->
+  t_pack T2 p t = Ok b ->
+  t_filter T2 p inp t = pan_filter (tk_pan t) ++ tk_sep t ++ (match tk_exp t with Some e => e | None => caret end) ++ tk_svc t ++ tk_dd t.
+Proof. exact track2_filter_masks. Qed.
+Print Assumptions C18_track2_filter.
+
+(* the premises are satisfiable: 4111111111111111=2512101123456 under ASCII / LL 37 *)
+Definition p35 : pspec := {| ps_kind := KString; ps_enc := EncASCII; ps_pref := PVar PfASCII 2; ps_len := 37; ps_pad := PadNone; ps_packer := PkDefault |}.
+Definition t35 : tstate := {| tk_fixed := false; tk_fc := []; tk_pan := [x34; x31; x31; x31; x31; x31; x31; x31; x31; x31; x31; x31; x31; x31; x31; x31];
+  tk_sep := [x3d]; tk_name := []; tk_exp := Some [x32; x35; x31; x32]; tk_svc := [x31; x30; x31]; tk_dd := [x31; x32; x33; x34; x35; x36] |}.
+Example C18_ex_track2 : t2_dom t35 /\ t_filter T2 p35 [] t35 =
+  [x34; x31; x31; x31; x2a; x2a; x2a; x2a; x31; x31; x31; x31; x3d; x32; x35; x31; x32; x31; x30; x31; x31; x32; x33; x34; x35; x36].
+Proof.
+  split; [|vm_compute; reflexivity]. unfold t2_dom, t35. cbn [tk_pan tk_sep tk_exp tk_svc tk_dd tk_fc tk_name].
+  split; [reflexivity|]. split; [cbn; lia|]. split; [left; reflexivity|]. split; [eexists; repeat split; reflexivity|].
+  split; [split; reflexivity|]. split; [|split; reflexivity]. split; [discriminate|]. split; [reflexivity|]. split; reflexivity.
+Qed.
